@@ -2,7 +2,8 @@
 
    [cxreachableF F boot page1 x]: x is reachable in the membership-change system RaftCC.cxstep
    by a run in which, at every node and at every moment, every configuration obtained by applying
-   a prefix of the node's log to the boot configuration lies in the family F.  If the quorums of
+   a prefix of the node's log UP TO ITS COMMIT INDEX to the boot configuration lies in the family F
+   (by state-machine safety these are the configurations along one committed log).  If the quorums of
    F pairwise intersect, the run is (node by node) a run of the micro-step system, so the
    inductive invariant holds and with it election safety, log matching, state-machine safety and
    leader completeness.  RaftCCQuorum.v shows that a configuration and its successor under ONE
@@ -20,14 +21,14 @@ Section CCSafety.
   Variable boot : conf.
   Variable page1 : bool.
 
-  Definition cenv (x : cxstate) : Prop := forall y, lenv F boot (n_log (fst (cx_nodes x y))).
+  Definition cenv (x : cxstate) : Prop := forall y, lenv F boot (n_log (fst (cx_nodes x y))) (n_commit (fst (cx_nodes x y))).
 
   Inductive cxreachableF : cxstate -> Prop :=
   | CXF_init : used_ok F boot -> cxreachableF cx_init
   | CXF_step : forall x x', cxreachableF x -> cxstep boot page1 x x' -> cenv x' -> cxreachableF x'.
 
   Lemma cenv_init : used_ok F boot -> cenv cx_init.
-  Proof. intros H y j. cbn. rewrite firstn_nil. exact H. Qed.
+  Proof. intros H y j _. cbn. rewrite firstn_nil. exact H. Qed.
 
   Lemma cxreachableF_cenv : forall x, cxreachableF x -> cenv x.
   Proof. intros x H. destruct H as [H|x x' _ _ H]; [apply cenv_init; exact H|exact H]. Qed.
@@ -44,9 +45,9 @@ Section CCSafety.
       destruct (cx_nodes x id) as [nx pend] eqn:Enode.
       assert (Hnid : nodes s id = nx) by (rewrite Hn, Enode; reflexivity).
       rewrite <- Hm in Hev.
-      assert (Henv0 : lenv F boot (n_log (nodes s id))).
+      assert (Henv0 : lenv F boot (n_log (nodes s id)) (n_commit (nodes s id))).
       { rewrite Hnid. specialize (Henv id). rewrite Enode in Henv. exact Henv. }
-      assert (Henv1 : lenv F boot (n_log (fst (fst (exec_cc boot page1 id ev (nodes s id, pend)))))).
+      assert (Henv1 : lenv F boot (n_log (fst (fst (exec_cc boot page1 id ev (nodes s id, pend))))) (n_commit (fst (fst (exec_cc boot page1 id ev (nodes s id, pend)))))).
       { rewrite Hnid. specialize (Henv' id). cbn [cx_nodes] in Henv'. rewrite upd_same in Henv'. exact Henv'. }
       destruct (exec_cc_sim F HF boot page1 s id ev pend Hr Hev Henv0 Henv1) as [s1 R1].
       rewrite Hnid in R1.
